@@ -367,6 +367,25 @@ def run_case(case, work, rec):
         judge(rec, out, data[exp_lv] if exp_lv is not None else None, 0 if exp_lv is not None else None,
               0 if exp_lv is not None else None, True, False, (digest, "lv", str(lvsel)), False,
               f"[int:0][level {lvsel!r}][int:0]")
+    # (3b) a level limit together with negative level numbers: the reader then exposes levels 0..L, and -1 is the
+    # finest level it exposes (or the selection is refused) - never a level counted from the Header's finest
+    if nl >= 2 and case["kind"] == "gen":
+        for L in range(nl - 1):
+            try:
+                pckL = PlotfileCooker(path, limit_level=L)
+            except Exception as e:
+                rec.violation(f"opening with limit_level={L} raised {type(e).__name__}", key=(digest, "open-limit", L))
+                continue
+            for neg in range(-1, -(L + 3), -1):
+                exp_lv = L + 1 + neg if -(L + 1) <= neg else None
+                try:
+                    out = ("val", pckL[0][neg][0])
+                except Exception as e:
+                    out = ("exc", type(e).__name__)
+                rec.count("negative_levels_under_a_limit")
+                judge(rec, out, data[exp_lv] if exp_lv is not None else None, 0 if exp_lv is not None else None,
+                      0 if exp_lv is not None else None, True, False, (digest, "neg-lv", L, neg), False,
+                      f"[int:0][level {neg}][int:0] with limit_level={L} ({nl} levels in the Header)")
     # (5) one selector object used for point queries near box faces (not judged here: C19's subject) and then
     # for box reads: what it returns afterwards is judged like any other selection
     if case["kind"] == "gen" and m.ndims == 3:
